@@ -56,6 +56,8 @@ type pipeScenario struct {
 	Prior int64
 	// Table: the table's name ("" = the pool's plain lower-case name)
 	Table string
+	// RenameIdent: the declaration selects ig_name, src_name and block_num itself, into columns of other names
+	RenameIdent bool
 	// FinalGrow blocks appended after the history so that the head ends strictly
 	// above every recorded position (C03's reading of "the source settles").
 	FinalGrow int
@@ -67,7 +69,7 @@ func (ps *pipeScenario) Describe() map[string]any {
 		hs = append(hs, h.String())
 	}
 	return map[string]any{"seed": ps.Seed, "mode": model.Mode(ps.Mode).String(), "batch": ps.Batch, "concurrency": ps.Conc, "start_kind": ps.StartK,
-		"initial_blocks": ps.Initial, "hash_plan": ps.HashPlan, "notify": ps.Notify, "history": strings.Join(hs, " "), "final_grow": ps.FinalGrow, "table": ps.Table}
+		"initial_blocks": ps.Initial, "hash_plan": ps.HashPlan, "notify": ps.Notify, "history": strings.Join(hs, " "), "final_grow": ps.FinalGrow, "table": ps.Table, "identity_columns_renamed": ps.RenameIdent}
 }
 
 // faultSpec addresses one I/O operation of one step and a fault kind.
@@ -183,6 +185,22 @@ func (ps *pipeScenario) build(r *vk.RNG) (*scen.Spec, *simnode.Chain, *model.Dec
 	}
 	d := gen.Decl(r, gen.DeclOpts{Mode: ps.Mode, Name: namePoolIG[0], Table: tbl, Src: namePoolSrc[0], Start: start, Stop: ps.Stop,
 		ABI: pipeABI, Exclude: gen.SafeExclude, SelIndexed: r.Bool(), HashPlan: ps.HashPlan})
+	if ps.RenameIdent {
+		alias := map[string]string{}
+		for _, f := range []struct{ name, col, typ string }{{"ig_name", "ign", "text"}, {"src_name", "srcn", "text"}, {"block_num", "bn", "numeric"}} {
+			found := false
+			for i := range d.Block {
+				if d.Block[i].Name == f.name {
+					d.Block[i].Column, found = f.col, true
+				}
+			}
+			if !found {
+				d.Block = append(d.Block, model.BlockField{Name: f.name, Column: f.col, ColType: f.typ})
+			}
+			alias[f.name] = f.col
+		}
+		identAlias.Store(tbl, alias)
+	}
 	if ps.Notify {
 		cols := d.TableColumns()
 		if len(cols) > 0 {
